@@ -81,13 +81,18 @@ func (s *subscriptionImpl) Add(teardown Teardown) {
 	}
 
 	s.mu.Lock()
-	defer s.mu.Unlock()
 
 	if s.done {
+		// Out of the lock, like the finalizers that Unsubscribe runs: a teardown may
+		// call back into its own subscription (IsClosed, Add, Unsubscribe).
+		s.mu.Unlock()
 		teardown() // not protected against panics
-	} else {
-		s.finalizers = append(s.finalizers, teardown)
+
+		return
 	}
+
+	s.finalizers = append(s.finalizers, teardown)
+	s.mu.Unlock()
 }
 
 // AddUnsubscribable merges multiple subscriptions into one. The method does nothing
